@@ -49,6 +49,8 @@ for f in ["sqrt", "square", "cbrt", "reciprocal"]:
     CASES.append({"label": "%s,Array" % f, "f": f, "spec": [("Array", "1d", "a")]})
 for k in (2, 3, -1, 0.5):
     CASES.append({"label": "power,k=%s" % k, "f": "power", "spec": [("Array", "1d", "a"), ("const:%s" % k, "0d", None)]})
+for k in (2, 3):
+    CASES.append({"label": "power,k=ndarray0d(%s)" % k, "f": "power", "spec": [("Array", "1d", "a"), ("nd0:%s" % k, "0d", None)]})
 for f in ["isfinite", "isnan", "isinf"]:
     CASES.append({"label": "%s,Array" % f, "f": f, "spec": [("Array", "1d", "a")]})
 for f in ["logical_and", "logical_or", "logical_xor"]:
